@@ -39,7 +39,7 @@ theorem isTime_fromNow_t64 (t1 t2 ms : Nat) (h64 : t1 + ms < M64) :
   simp only [Sched.fromNow, Sched.isTime, Nat.mod_eq_of_lt h64]
 
 /-- 32-bit flavour: from `ms` on, except when the deadline equals the "disabled" sentinel (moved by one) -/
-theorem isTime_fromNow_t32_at (t1 ms : Nat) (hms : ms ≤ 100000) (hs : (t1 + ms) % M32 ≠ M32 - 1) :
+theorem isTime_fromNow_t32_at (t1 ms : Nat) (hs : (t1 + ms) % M32 ≠ M32 - 1) :
     (Sched.fromNow .t32 t1 ms).isTime .t32 (t1 + ms) = true := by
   simp only [Sched.fromNow, Sched.isTime, disabledVal, millis32, sub32, M32, INT32_MAX] at *
   have hn : ¬ (t1 % 4294967296 + ms) % 4294967296 = 4294967296 - 1 := by omega
